@@ -266,3 +266,7 @@ End Samples.
 (* sbcov: the sparse binned counter alone over a region list with more than 2^32 bins (case kind added after the port) *)
 Example rc_sbcov : run_case (SL [SA [115;98;99;111;118]; SA [49]; SL [SA [114;101;103;115]; SL [SA [54;51;54;56;55;50;51;49]; SA [48]; SA [52;50;57;52;57;54;55;52;48;48]]; SL [SA [54;51;54;56;55;50;51;50]; SA [49;48;48;48]; SA [50;48;48;48]]]; SL [SA [111;112;115]; SL [SA [105;110;115]; SA [54;51;54;56;55;50;51;50]; SA [49;53;48;48]; SA [49;53;48;51]; SA [50]]; SL [SA [103;101;116;109;97;112]]; SL [SA [103;101;116;114;101;103;105;111;110]; SA [52;50;57;52;57;54;56;57;48;48]]; SL [SA [103;101;116;99;104;114;111;109]; SA [52;50;57;52;57;54;55;57;48;48]]; SL [SA [103;101;116;114;101;103;105;111;110]; SA [52;50;57;52;57;54;55;57;48;49]]; SL [SA [105;110;115]; SA [54;51;54;56;55;50;51;49]; SA [52;50;57;52;57;54;55;51;57;56]; SA [52;50;57;52;57;54;55;53;48;48]; SA [49]]; SL [SA [103;101;116;109;97;112]]; SL [SA [114;101;115;101;116]]; SL [SA [103;101;116;109;97;112]]]]) = SL [SA [114]; SL [SA [115;109;97;112]; SA [50]; SA [52;50;57;52;57;54;56;52;48;48]; SL [SL [SA [52;50;57;52;57;54;55;57;48;48]; SA [50]]; SL [SA [52;50;57;52;57;54;55;57;48;49]; SA [50]]; SL [SA [52;50;57;52;57;54;55;57;48;50]; SA [50]]]]; SA [110;111;110;101]; SA [54;51;54;56;55;50;51;50]; SL [SA [54;51;54;56;55;50;51;50]; SA [49;53;48;49]; SA [49;53;48;50]]; SL [SA [115;109;97;112]; SA [51]; SA [52;50;57;52;57;54;56;52;48;48]; SL [SL [SA [52;50;57;52;57;54;55;57;48;48]; SA [50]]; SL [SA [52;50;57;52;57;54;55;57;48;49]; SA [50]]; SL [SA [52;50;57;52;57;54;55;57;48;50]; SA [50]]; SL [SA [52;50;57;52;57;54;55;51;57;56]; SA [49]]; SL [SA [52;50;57;52;57;54;55;51;57;57]; SA [49]]]]; SL [SA [115;109;97;112]; SA [48]; SA [52;50;57;52;57;54;56;52;48;48]; SL []]].
 Proof. vm_compute. reflexivity. Qed.
+
+(* splithead: the first k pieces of a record with about 2^61 pieces (case kind added after the port) *)
+Example rc_splithead : run_case (SL [SA [115;112;108;105;116;104;101;97;100]; SA [53]; SA [49;56;52;52;54;55;52;52;48;55;51;55;48;57;53;53;49;54;49;53]; SA [55]; SA [51]]) = SL [SA [114]; SL [SA [115;112]; SL [SA [53]; SA [49;50]]; SL [SA [49;50]; SA [49;57]]; SL [SA [49;57]; SA [50;54]]]; SL [SA [114;115;112]; SL [SA [49;56;52;52;54;55;52;52;48;55;51;55;48;57;53;53;49;54;48;56]; SA [49;56;52;52;54;55;52;52;48;55;51;55;48;57;53;53;49;54;49;53]]; SL [SA [49;56;52;52;54;55;52;52;48;55;51;55;48;57;53;53;49;54;48;49]; SA [49;56;52;52;54;55;52;52;48;55;51;55;48;57;53;53;49;54;48;56]]; SL [SA [49;56;52;52;54;55;52;52;48;55;51;55;48;57;53;53;49;53;57;52]; SA [49;56;52;52;54;55;52;52;48;55;51;55;48;57;53;53;49;54;48;49]]]].
+Proof. vm_compute. reflexivity. Qed.
